@@ -60,8 +60,11 @@ BASE_SOLVE["returns_any"] = True
 BACKEND_ARGS = dict(
     name="CircuitTemplate._validate_backend_args", prop="C20", target=f"{FC}::CircuitTemplate._validate_backend_args",
     params={"backend": "str", "vectorize": "bool", "run": "bool", "kwargs": "opaque"},
-    raises={"PyRatesException": "(vectorize and backend == 'fortran') or (backend == 'julia' and 'julia_path' not in kwargs)"},
-    on_raise=[], ensures=["not (vectorize and backend == 'fortran')"], unknown_calls="opaque", modifies=[],
+    # the documented backend names (docstring of CircuitTemplate.run); any other name is refused instead of silently running NumPy
+    raises={"PyRatesException": "backend not in ('default', 'numpy', 'torch', 'jax', 'fortran', 'julia', 'matlab') or "
+                                "(vectorize and backend == 'fortran') or (backend == 'julia' and 'julia_path' not in kwargs)"},
+    on_raise=[], ensures=["not (vectorize and backend == 'fortran')",
+                          "backend in ('default', 'numpy', 'torch', 'jax', 'fortran', 'julia', 'matlab')"], unknown_calls="opaque", modifies=[],
 )
 
 # Reserved variable names (C20: "a reserved variable name" raises).  The SPEC is this pinned list — the names the documentation
